@@ -5,6 +5,7 @@ import Driver.Canon
 import PsVerif.Model.PFB
 import PsVerif.Model.Names
 import PsVerif.Model.Query
+import PsVerif.Model.T1Decode
 /-!
 `psdriver`: reads one case per line from stdin, prints the model's canonical result
 line for each.  A line the driver cannot parse gives `bad-op` (never a default).
@@ -30,6 +31,24 @@ operation budget); without a budget a large constant. -/
 def fuelFor (m : Nat) (len : Nat) : Nat :=
   if m == 0 then 20000000 else 40 * (m + len) + 100000
 
+def cmdStr : T1Encode.Cmd → String
+  | .moveTo x y => s!"m:{ratStr x}:{ratStr y}"
+  | .lineTo x y => s!"l:{ratStr x}:{ratStr y}"
+  | .curveTo a b c d e f => s!"c:{ratStr a}:{ratStr b}:{ratStr c}:{ratStr d}:{ratStr e}:{ratStr f}"
+  | .closePath => "z"
+
+def csResult (subrs : List (List Nat)) (code : List Nat) : String :=
+  match T1Decode.decodeCharString subrs code with
+  | .error .stackOverflow => "err:stackoverflow"
+  | .error .incomplete => "err:incomplete"
+  | .error (.invalid _) => "err:invalid"
+  | .error .nonfinite => "nonfinite"
+  | .error .fuel => "fuel"
+  | .ok d =>
+    let g := d.res
+    "ok w=" ++ ratStr g.widthX ++ "," ++ ratStr g.widthY ++ " cmds=" ++ String.intercalate ";" (g.cmds.map cmdStr) ++
+      " hs=" ++ String.intercalate "," (g.hstem.map toString) ++ " vs=" ++ String.intercalate "," (g.vstem.map toString)
+
 def handle (line : String) : String :=
   match line.splitOn " " with
   | ["enc", wx, wy, hs, vs, cmds] =>
@@ -38,6 +57,11 @@ def handle (line : String) : String :=
     | some wx, some wy, some hs, some vs, some cs =>
       hexOfBytes (T1Encode.encodeCharString { cmds := cs, hstem := hs, vstem := vs } wx wy)
     | _, _, _, _, _ => "bad-op"
+  | ["cs", subrs, code] =>
+    match mapM? bytesOfHex (splitList subrs ";"), bytesOfHex code with
+    | some ss, some c => csResult ss c
+    | _, _ => "bad-op"
+  | ["csf", _, _] => "skip"
   | ["encf", _, _, _, _, _] => "skip"   -- oracle-only case (float arithmetic not exact)
   | ["num", x] =>
     match parseRat x with
